@@ -369,6 +369,32 @@ def check_derivative(case):
             if not np.abs(got2 - D1[:, j]).max() <= 1e-10 * scale:
                 probs.append(("deriv:value", "Spline.deriv of basis spline %d deviates from the reference" % j))
                 break
+        # one spline object whose coefficients change between two derivative() calls (assignment and in-place
+        # update): the second derivative spline belongs to the new coefficients
+        if not probs and R.n >= 2:
+            P = np.array(pts)
+            for how in ("assign", "inplace", "callers-array"):
+                c0 = np.zeros(R.n)
+                c0[0] = 1.0
+                s = spline.Spline(kv, c0)
+                s.derivative()
+                if how == "assign":
+                    c1 = np.zeros(R.n)
+                    c1[R.n - 1] = 1.0
+                    s.coeffs = c1
+                elif how == "inplace":
+                    s.coeffs[:] = 0.0
+                    s.coeffs[R.n - 1] = 1.0
+                else:
+                    c0[:] = 0.0            # the array the caller passed in
+                    c0[R.n - 1] = 1.0
+                cur = np.asarray(s.coeffs, dtype=float).ravel()
+                want = D1 @ cur
+                got = np.asarray(s.derivative().eval(P), dtype=float)
+                if not np.abs(got - want).max() <= 1e-10 * scale:
+                    probs.append(("derivative:stale", "derivative() called again after the coefficients changed (%s) is not the derivative of "
+                                  "the spline the object now represents (deviation %.3g, scale %.3g)" % (how, np.abs(got - want).max(), scale)))
+                    break
     except Exception as e:
         probs.append(("derivative:exception:%s" % type(e).__name__, "Spline.derivative raised %r" % (e,)))
     return probs
